@@ -1,6 +1,7 @@
 import MuduoVerif.Proofs.LoopOwner
 import MuduoVerif.Proofs.Pool
 import MuduoVerif.Proofs.ThreadSkelTie
+import MuduoVerif.Proofs.LoopSkelTie
 /-!
 # C05 — quit() always ends the loop; loop threads and pools start, serve, join cleanly
 
@@ -75,7 +76,7 @@ theorem quit_ends_loop (s : St) (h : Reachable s) (hq : s.qreq = true)
     · rcases hp with hp | hp <;> simp [hp] at h1
     · rcases hp with hp | hp <;> simp [hp] at h1
   have := quitResetAtEntry_tie
-  rcases hp with hp | hp <;> simp [stepLoop, stepLoopFD, hp, testQuit, hquit, this]
+  rcases hp with hp | hp <;> simp [stepLoop, stepLoopFD, stepLoopG, hp, testQuit, hquit, this]
 
 /-- **quit_in_callback**: after a `quit()` called on the loop thread itself (from a functor, an I/O handler, or before
 `loop()`), the loop never enters `poll` again: it finishes the current iteration and returns -/
@@ -200,23 +201,24 @@ theorem startLoop_terminates (s : St) (h : Reachable s) (k : Nat) (hk : k ≠ s.
   · rcases hpc with hpc | hpc <;> simp [EarlyDestroy, hpc] at h1
 
 /-- **clean_shutdown**: the documented use of `EventLoopThread` — one owner thread calls `startLoop()`, then hands any
-number of tasks to the loop (`queueInLoop`, `runInLoop`, bytes for an I/O handler; task bodies and the thread-init
-callback submit more work but do not call `quit()`), then optionally destroys the object.  For **every** schedule, a
+number of tasks to the loop (`queueInLoop`, `runInLoop`, bytes for an I/O handler; task bodies, the destructors of what
+the functor objects own and the thread-init callback submit more work but do not call `quit()`), then optionally
+destroys the object.  For **every** schedule, a
 state in which no thread can move is a clean end: the owner has finished its program, no step touched a destroyed
 loop, and either the object was destroyed — then the loop was told to quit, `loop()` returned, the loop object is
 gone and the join has returned — or it was not, and the loop idles in `poll` with nothing asked of it.  In
 particular neither `startLoop()` nor the destructor's `join()` can hang, at any timing of the destructor relative to
 the new thread's start-up. -/
-theorem clean_shutdown (wl : Bool) (tbl : TaskId → List Sub) (pre body tail : List Sub) (sched : List Nat)
-    (htbl : ∀ x, userOnly (tbl x) = true) (hpre : userOnly pre = true) (hbody : userOnly body = true)
-    (htail : tail = [] ∨ tail = [.destroy]) :
-    let s := run (init true wl tbl pre (fun k => if k = 0 then .startLoop :: (body ++ tail) else [])) sched
+theorem clean_shutdown (wl : Bool) (tbl dtbl : TaskId → List Sub) (pre body tail : List Sub) (sched : List Nat)
+    (htbl : ∀ x, userOnly (tbl x) = true) (hdtbl : ∀ x, userOnly (dtbl x) = true) (hpre : userOnly pre = true)
+    (hbody : userOnly body = true) (htail : tail = [] ∨ tail = [.destroy]) :
+    let s := run (init true wl tbl dtbl pre (fun k => if k = 0 then .startLoop :: (body ++ tail) else [])) sched
     Stuck s →
       (s.thr 0).pc = .idle ∧ (s.thr 0).prog = [] ∧ s.uafDtor = false ∧
       ((tail = [.destroy] ∧ s.phase = .dead ∧ s.qreq = true) ∨ (tail = [] ∧ IdleInPoll s)) := by
   intro s hs
   exact owner_stuck
-    (run_invariant (fun _ k h => step_owner htail k h) (init_owner wl tbl pre body tail htbl hpre hbody) sched) hs
+    (run_invariant (fun _ k h => step_owner htail k h) (init_owner wl tbl dtbl pre body tail htbl hdtbl hpre hbody) sched) hs
 
 /-! ## EventLoopThreadPool -/
 
@@ -261,7 +263,7 @@ theorem pool_all_loops (n k h : Nat) :
 /-- `EventLoopThread`: the owner starts the loop, queues task 1 and destroys the object; under this schedule the
 task runs, the destructor's `quit()` ends the loop, the loop object is destroyed and the join returns -/
 example :
-    let s := run (init true false (fun _ => []) [] (fun k => if k = 0 then [.startLoop, .queue 1, .destroy] else []))
+    let s := run (init true false (fun _ => []) (fun _ => []) [] (fun k => if k = 0 then [.startLoop, .queue 1, .destroy] else []))
                  [0, 1, 1, 1, 1, 1, 0, 0, 0, 0, 0, 0, 0, 1, 1, 1, 1, 1, 1, 1, 1, 1, 1, 1, 1, 1, 1, 0]
     s.executed = [1] ∧ s.phase = .dead ∧ s.uafDtor = false ∧ (s.thr 0).pc = .idle ∧ (s.thr 0).prog = [] ∧
     s.qreq = true := by
@@ -270,24 +272,35 @@ example :
 /-- the hypotheses of `clean_shutdown` are satisfiable and its conclusion is reached: the run above is such a program
 (`body = [queue 1]`, `tail = [destroy]`) and ends in a state where nobody can move -/
 example :
-    let s := run (init true false (fun _ => []) [] (fun k => if k = 0 then .startLoop :: ([.queue 1] ++ [.destroy]) else []))
+    let s := run (init true false (fun _ => []) (fun _ => []) [] (fun k => if k = 0 then .startLoop :: ([.queue 1] ++ [.destroy]) else []))
                  [0, 1, 1, 1, 1, 1, 0, 0, 0, 0, 0, 0, 0, 1, 1, 1, 1, 1, 1, 1, 1, 1, 1, 1, 1, 1, 1, 0]
     enabled s 0 = false ∧ enabled s 1 = false ∧ s.phase = .dead ∧ userOnly [Sub.queue 1] = true := by
+  decide +kernel
+
+/-- `clean_shutdown` with a functor object that owns something: the destructor of what task 1's functor owns queues task 2
+(`dtbl`, `userOnly`); the owner starts the loop, queues task 1 and destroys the object: both tasks run — task 2 is
+queued while the batch is destroyed, inside `doPendingFunctors` — the loop ends, the join returns, nobody can move -/
+example :
+    let s := run (init true false (fun _ => []) (fun t => if t = 1 then [.queue 2] else []) []
+                    (fun k => if k = 0 then .startLoop :: ([.queue 1] ++ [.destroy]) else []))
+                 [0, 0, 1, 1, 1, 1, 0, 0, 0, 0, 0, 0, 0, 0, 1, 1, 1, 1, 1, 1, 1, 1, 1, 1, 1, 1, 1, 1, 1, 1, 1, 1, 0]
+    s.executed = [1, 2] ∧ s.phase = .dead ∧ s.uafDtor = false ∧ enabled s 0 = false ∧ enabled s 1 = false ∧
+    (s.thr 0).pc = .idle ∧ (s.thr 0).prog = [] ∧ userOnly [Sub.queue 2] = true := by
   decide +kernel
 
 /-- the thread-init callback quits the loop and the loop thread runs to its end before the owner looks: `startLoop()`
 returns NULL (it used to wait forever), the owner's destructor joins -/
 example :
-    let s := run (init true false (fun _ => []) [.quit] (fun k => if k = 0 then [.startLoop, .destroy] else []))
+    let s := run (init true false (fun _ => []) (fun _ => []) [.quit] (fun k => if k = 0 then [.startLoop, .destroy] else []))
                  [0, 1, 1, 1, 1, 1, 1, 1, 1, 1, 1, 1, 0, 0, 0, 0]
     s.phase = .dead ∧ s.finished = true ∧ (s.thr 0).pc = .idle ∧ (s.thr 0).prog = [] ∧ s.uafDtor = false ∧
-    (step (run (init true false (fun _ => []) [.quit] (fun k => if k = 0 then [.startLoop, .destroy] else []))
+    (step (run (init true false (fun _ => []) (fun _ => []) [.quit] (fun k => if k = 0 then [.startLoop, .destroy] else []))
             [0, 1, 1, 1, 1, 1, 1, 1, 1, 1, 1, 1]) 0).out = some .startedNull := by
   decide +kernel
 
 /-- a `quit()` that completes before `loop()` starts: the flag is still set when the loop tests it -/
 example :
-    let s := run (init false false (fun _ => []) [] (fun k => if k = 1 then [.quit] else [])) [1, 1, 0]
+    let s := run (init false false (fun _ => []) (fun _ => []) [] (fun k => if k = 1 then [.quit] else [])) [1, 1, 0]
     s.qreq = true ∧ s.quit = true ∧ s.phase = .entered := by
   decide
 
@@ -330,5 +343,75 @@ theorem thread_start_join_tied :
    ThreadSkel.skeleton_threadDataCtor, ThreadSkel.skeleton_startThread, ThreadSkel.skeleton_runInThread,
    ThreadSkel.skeleton_threadJoin, ThreadSkel.skeleton_threadDtor, ThreadSkel.skeleton_latchWait,
    ThreadSkel.skeleton_latchCountDown⟩
+
+/-- **loopthread_statement_order_tied** (T1, statement order of what ends a loop and of what owns loop threads).
+`EventLoop::quit`, every function of /repo's current `EventLoopThread.cc` and `EventLoopThreadPool.cc` have the statement
+skeleton the steps of `Model/Loop.lean` / `Model/Pool.lean` assume (`Model/LoopSkelDecl.lean`; re-extracted on every run
+by `vlib/gen/loopskel.py`, proved equal in `Proofs/LoopSkelTie.lean`), and the orders this property rests on hold of the
+EXTRACTED skeletons: (b) `quit` stores the flag before `wakeup()`, which is called exactly off the loop thread; (g)
+`threadFunc` publishes `loop_` and notifies inside the critical section, before `loop.loop()` (which runs outside it), and
+clears `loop_`, sets `finished_` and notifies inside a critical section after it; `~EventLoopThread` calls `loop_->quit()`
+inside the critical section only when `loop_ != NULL` and joins afterwards, outside it; `startLoop` starts the thread
+before it waits, waits in `while (loop_ == NULL && !finished_)` inside the critical section and reads `loop_` there; (h)
+`EventLoopThreadPool::start` sets `started_`, then per index in increasing order creates the thread, appends it to
+`threads_`, and appends the result of its `startLoop()` to `loops_`; `cb(baseLoop_)` only under `numThreads_ == 0 && cb`;
+`getNextLoop` reads `loops_[next_]` before it advances the cursor. -/
+theorem loopthread_statement_order_tied :
+    Gen.LoopSkel.quit = LoopSkel.Decl.quit ∧
+    (Gen.LoopSkel.threadCtor = LoopSkel.Decl.threadCtor ∧
+     Gen.LoopSkel.threadDtor = LoopSkel.Decl.threadDtor ∧
+     Gen.LoopSkel.startLoop = LoopSkel.Decl.startLoop ∧
+     Gen.LoopSkel.threadFunc = LoopSkel.Decl.threadFunc ∧
+     Gen.LoopSkel.poolCtor = LoopSkel.Decl.poolCtor ∧
+     Gen.LoopSkel.poolDtor = LoopSkel.Decl.poolDtor ∧
+     Gen.LoopSkel.poolStart = LoopSkel.Decl.poolStart ∧
+     Gen.LoopSkel.getNextLoop = LoopSkel.Decl.getNextLoop ∧
+     Gen.LoopSkel.getLoopForHash = LoopSkel.Decl.getLoopForHash ∧
+     Gen.LoopSkel.getAllLoops = LoopSkel.Decl.getAllLoops) ∧
+    -- (b)
+    (LoopSkel.before (.store "quit_" "true") (.call "wakeup" "") (LoopSkel.flat Gen.LoopSkel.quit) = true ∧
+     LoopSkel.onlyUnder "!isInLoopThread()" (.call "wakeup" "") Gen.LoopSkel.quit = true) ∧
+    -- (g) threadFunc
+    (LoopSkel.inOrder [.assign "loop" "EventLoop()", .call "callback_" "&loop", .store "loop_" "&loop",
+                       .call "cond_.notify" "", .call "loop.loop" "", .store "loop_" "NULL", .store "finished_" "true",
+                       .call "cond_.notifyAll" ""] (LoopSkel.flat Gen.LoopSkel.threadFunc) = true ∧
+     LoopSkel.insideLock "mutex_" (.store "loop_" "&loop") (LoopSkel.flat Gen.LoopSkel.threadFunc) = true ∧
+     LoopSkel.insideLock "mutex_" (.call "cond_.notify" "") (LoopSkel.flat Gen.LoopSkel.threadFunc) = true ∧
+     LoopSkel.outsideLock "mutex_" (.call "loop.loop" "") (LoopSkel.flat Gen.LoopSkel.threadFunc) = true ∧
+     LoopSkel.insideLock "mutex_" (.store "loop_" "NULL") (LoopSkel.flat Gen.LoopSkel.threadFunc) = true ∧
+     LoopSkel.insideLock "mutex_" (.store "finished_" "true") (LoopSkel.flat Gen.LoopSkel.threadFunc) = true ∧
+     LoopSkel.insideLock "mutex_" (.call "cond_.notifyAll" "") (LoopSkel.flat Gen.LoopSkel.threadFunc) = true) ∧
+    -- (g) ~EventLoopThread
+    (LoopSkel.insideLock "mutex_" (.call "loop_.quit" "") (LoopSkel.flat Gen.LoopSkel.threadDtor) = true ∧
+     LoopSkel.onlyUnder "loop_ != NULL" (.call "loop_.quit" "") Gen.LoopSkel.threadDtor = true ∧
+     LoopSkel.inOrder [.store "exiting_" "true", .call "loop_.quit" "", .call "unlock" "mutex_", .call "thread_.join" ""]
+       (LoopSkel.flat Gen.LoopSkel.threadDtor) = true ∧
+     LoopSkel.outsideLock "mutex_" (.call "thread_.join" "") (LoopSkel.flat Gen.LoopSkel.threadDtor) = true) ∧
+    -- (g) startLoop
+    (LoopSkel.inOrder [.call "thread_.start" "", .call "cond_.wait" "", .assign "loop" "loop_", .ret "loop"]
+       (LoopSkel.flat Gen.LoopSkel.startLoop) = true ∧
+     LoopSkel.insideLock "mutex_" (.call "cond_.wait" "") (LoopSkel.flat Gen.LoopSkel.startLoop) = true ∧
+     LoopSkel.insideLock "mutex_" (.assign "loop" "loop_") (LoopSkel.flat Gen.LoopSkel.startLoop) = true ∧
+     LoopSkel.loopBody .whileDo "loop_ == NULL && !finished_" Gen.LoopSkel.startLoop = [.act (.call "cond_.wait" "")]) ∧
+    -- (h)
+    (LoopSkel.flat (LoopSkel.loopBody .forDo "i = 0; i < numThreads_; ++i" Gen.LoopSkel.poolStart) =
+       [.sys "snprintf" "buf, sizeof(buf), \"%s%d\", name_.c_str(), i", .assign "t" "new EventLoopThread(cb, buf)",
+        .call "threads_.push_back" "t", .call "t.startLoop" "", .call "loops_.push_back" "<result>"] ∧
+     LoopSkel.inOrder [.call "baseLoop_.assertInLoopThread" "", .store "started_" "true",
+                       .assign "t" "new EventLoopThread(cb, buf)", .call "threads_.push_back" "t", .call "t.startLoop" "",
+                       .call "loops_.push_back" "<result>"] (LoopSkel.flat Gen.LoopSkel.poolStart) = true ∧
+     LoopSkel.onlyUnder "numThreads_ == 0 && cb" (.call "cb" "baseLoop_") Gen.LoopSkel.poolStart = true ∧
+     LoopSkel.inOrder [.assign "loop" "baseLoop_", .assign "loop" "loops_[next_]", .store "next_" "next_ + 1",
+                       .store "next_" "0", .ret "loop"] (LoopSkel.flat Gen.LoopSkel.getNextLoop) = true) :=
+  ⟨LoopSkel.skeleton_quit, LoopSkel.skeletons_agree_thread_pool, LoopSkel.quit_store_precedes_wakeup,
+   ⟨LoopSkel.threadFunc_order.1, LoopSkel.threadFunc_order.2.1, LoopSkel.threadFunc_order.2.2.1,
+    LoopSkel.threadFunc_order.2.2.2.1, LoopSkel.threadFunc_order.2.2.2.2.2.1, LoopSkel.threadFunc_order.2.2.2.2.2.2.1,
+    LoopSkel.threadFunc_order.2.2.2.2.2.2.2.1⟩,
+   ⟨LoopSkel.threadDtor_order.1, LoopSkel.threadDtor_order.2.1, LoopSkel.threadDtor_order.2.2.1,
+    LoopSkel.threadDtor_order.2.2.2.1⟩,
+   ⟨LoopSkel.startLoop_order.1, LoopSkel.startLoop_order.2.2.1, LoopSkel.startLoop_order.2.2.2.1,
+    LoopSkel.startLoop_order.2.2.2.2.1⟩,
+   ⟨LoopSkel.poolStart_order.2.1, LoopSkel.poolStart_order.2.2.1, LoopSkel.poolStart_order.2.2.2,
+    LoopSkel.pool_selectors.1⟩⟩
 
 end MuduoVerif.C05
